@@ -5,7 +5,7 @@ from vverif.core import Result, HarnessError
 LEVEL = 'exploration'
 RULE = ('every combination of Content-Length fields built from a grid of 14 values (quick; 22 thorough: 0 1 5 05 empty SP HTAB +5 -5 5a a '
         '2^63-1 2^63 2^64+5 [23-digit 5, "5 5", 0x5, "5;q", 5.0, -0, 5 HTAB, fullwidth 6]): one field with a list of <= 3 values, two fields '
-        '(<= 2 x <= 2 values; thorough also 3 x <= 2 over the 14-value grid), three single-value fields; list separators ",", ", ", " ,"; each combination x 3 '
+        '(<= 2 x <= 2 values; thorough also a comma-separated list of 3 x <= 2 over the 14-value grid), three single-value fields; list separators ",", ", ", " ,"; each combination x 3 '
         'layouts (alone / between other fields / lower+upper-case names without SP) x {request, reply 200, reply 204, reply 100} x '
         'relaxed_header_parser {off, on} x {without, with Transfer-Encoding: chunked}. Oracle = the statement: a length is used only if it '
         'is the decimal every value spells (valid 1*DIGIT <= 2^63-1, all equal) and, when there are several values, only with relaxed parsing; '
